@@ -40,6 +40,7 @@ type Run struct {
 	inconclusive  int
 	violations    int
 	distinct      map[string]struct{}
+	distinctExtra int
 	samples       []interface{}
 	extra         map[string]interface{}
 	assumptions   []string
@@ -198,6 +199,13 @@ func (r *Run) Distinct(key string) {
 	r.mu.Unlock()
 }
 
+// DistinctN adds n cases which are distinct by construction (enumerations).
+func (r *Run) DistinctN(n int) {
+	r.mu.Lock()
+	r.distinctExtra += n
+	r.mu.Unlock()
+}
+
 // Inconclusive counts a case which could not be decided.
 func (r *Run) Inconclusive(why string) {
 	r.mu.Lock()
@@ -334,7 +342,7 @@ func (r *Run) Finish(minConclusive int) int {
 		cov[k] = v
 	}
 	cov["evaluations"] = r.evaluations
-	cov["distinct_nontrivial"] = len(r.distinct)
+	cov["distinct_nontrivial"] = len(r.distinct) + r.distinctExtra
 	cov["rule"] = r.rule
 	if len(r.samples) == 0 {
 		r.samples = append(r.samples, "no sample recorded")
@@ -375,7 +383,7 @@ func (r *Run) Finish(minConclusive int) int {
 	os.Rename(tmp, filepath.Join(dir, r.Property+".json"))
 
 	fmt.Printf("%s %s seed=%d: evaluations=%d distinct=%d inconclusive=%d violations=%d known=%v wall=%.1fs\n",
-		r.Property, r.Tier, r.Seed, r.evaluations, len(r.distinct), r.inconclusive,
+		r.Property, r.Tier, r.Seed, r.evaluations, len(r.distinct)+r.distinctExtra, r.inconclusive,
 		r.violations, known, time.Since(r.start).Seconds())
 	keys := make([]string, 0, len(counters))
 	for k := range counters {
